@@ -33,3 +33,18 @@ Theorem C02_client_outstanding_is_head : forall c t ls, Forall wf_lab ls ->
   let s := run ls (init c t) in pend s <> 0 -> exists rest, q s = pend s :: rest.
 Proof. exact pending_is_head_S1. Qed.
 Print Assumptions C02_client_outstanding_is_head.
+
+(** Full strength at the model's granularity (one handler / one pump iteration), for EVERY schedule -- no quiescence
+    hypothesis: what the client has handed to the network is exactly what has been concluded followed by the one
+    outstanding request.  Hence at most one CALL is outstanding at any time and no CALL is ever written twice; and what
+    has been written is a prefix of what was accepted, i.e. CALLs go out in acceptance order.  (Provable since the repair
+    of F16: the pump dispatches only while nothing is outstanding.) *)
+Theorem C02_client_written_is_concluded_plus_outstanding : forall c t ls, Forall wf_lab ls ->
+  let s := run ls (init c t) in wrs (tr s) = conc (tr s) ++ pendl s.
+Proof. exact written_is_concluded_plus_outstanding_S1. Qed.
+Print Assumptions C02_client_written_is_concluded_plus_outstanding.
+
+Theorem C02_client_written_prefix_of_accepted : forall c t ls, Forall wf_lab ls ->
+  let s := run ls (init c t) in exists rest, acc (tr s) = wrs (tr s) ++ rest.
+Proof. exact written_prefix_of_accepted_S1. Qed.
+Print Assumptions C02_client_written_prefix_of_accepted.
